@@ -199,6 +199,7 @@ func Run(a Matrix, args_ ...interface{}) (Vector, Matrix, error) {
   // default values for optional arguments
   computeEigenvectors := true
   symmetric           := false
+  qrSymmetric         := false
   inSitu              := &InSitu{}
   // arguments passed on to the qrAlgorithm
   var args []interface{}
@@ -211,11 +212,19 @@ func Run(a Matrix, args_ ...interface{}) (Vector, Matrix, error) {
       symmetric = tmp.Value
     case qrAlgorithm.ComputeU:
       // drop this option
+    case qrAlgorithm.Symmetric:
+      qrSymmetric = tmp.Value
+      args = append(args, arg)
     case *InSitu:
       inSitu = tmp
     default:
       args = append(args, arg)
     }
+  }
+  if qrSymmetric {
+    // the result of the symmetric QR algorithm is diagonal only up to
+    // rounding errors, it must not be read as a general Schur form
+    symmetric = true
   }
   if inSitu.Eigenvalues == nil {
     inSitu.Eigenvalues = NullDenseVector(t, n)
